@@ -10,6 +10,11 @@ package pki
 // operation, or a crash = every operation fails from the k-th on, followed by a restart) with a retry of
 // the same call until it reports success. After every action the model below is compared with what the
 // API serves: cert/<serial>, OCSP (GET and POST), issuer/<ref>/crl for every issuer and cert/crl.
+//
+// c16_ext_test.go adds to the same machine: delta CRLs (enable_delta, crl/rotate-delta, periodic delta rebuild,
+// issuer/<ref>/crl/delta, cert/delta-crl), revoke-with-key (own key / other key), certificates that no issuer of
+// the mount signed, unstored certificates of a deleted issuer, a second issuer with the key and subject of i0,
+// revocation of already expired certificates, tidy variants and auto-tidy.
 
 import (
 	"bytes"
@@ -53,6 +58,15 @@ type c16Cert struct {
 	faultAfterRecord bool  // a revoke call failed with an injected fault after revoked/<serial> had been written
 	must             bool  // must be on every CRL of its issuer fetched from now on (until expiry)
 	crlTime          time.Time
+
+	// c16_ext_test.go
+	keyPEM         string // private key as returned by issue
+	revRFC         string // revocation_time_rfc3339 of the first success
+	mustUnion      bool   // must be on the complete CRL or on the delta CRL that can be combined with it
+	seenUnion      bool   // was observed there
+	viaKey         bool   // revoked through revoke-with-key
+	lostToMixed    bool   // left off a CRL built while one of two equivalent issuers lacked crl-signing, not seen listed since
+	expiredAtIssue bool
 }
 
 func (c *c16Cert) alive(now time.Time) bool { return now.Before(c.cert.NotAfter.Add(-c16ExpiryMargin)) }
@@ -90,6 +104,8 @@ type c16Sys struct {
 	step    int
 	history []string
 
+	x c16Ext // c16_ext_test.go
+
 	// coverage of this case
 	nFaultRevoke, nFaultAfterRecord, nCrash, nRestart, nRotate, nTidy, nF5, nNumberReuse, nInterruptedRebuild int
 }
@@ -103,7 +119,7 @@ func (s *c16Sys) detail() map[string]any {
 	if len(h) > 80 {
 		h = h[len(h)-80:]
 	}
-	return map[string]any{"issuers": s.issuers, "default": s.def, "auto_rebuild": s.autoRebuild, "crl_disabled": s.disabled, "history": h}
+	return map[string]any{"issuers": s.issuers, "default": s.def, "auto_rebuild": s.autoRebuild, "enable_delta": s.x.delta, "crl_disabled": s.disabled, "history": h}
 }
 
 func (s *c16Sys) violation(sig, format string, args ...any) bool {
@@ -132,7 +148,12 @@ func (s *c16Sys) mustWrite(what, path string, data map[string]any) *logical.Resp
 
 // c16Setup builds the mount: nIssuers in 1..3; issuer 0 and 1 are roots, issuer 2 is an intermediate of issuer 0.
 func c16Setup(rt *rapid.T, rec *verifx.Recorder, nIssuers int, autoRebuild bool) *c16Sys {
-	s := &c16Sys{rt: rt, rec: rec, fs: &vxFaultStorage{Storage: &logical.InmemStorage{}}, issuerCert: map[string]*x509.Certificate{},
+	return c16SetupOn(rt, rec, nIssuers, autoRebuild, &logical.InmemStorage{})
+}
+
+// c16SetupOn: the same over a caller-supplied storage (the schedules unit puts a gateable physical backend below).
+func c16SetupOn(rt *rapid.T, rec *verifx.Recorder, nIssuers int, autoRebuild bool, storage logical.Storage) *c16Sys {
+	s := &c16Sys{rt: rt, rec: rec, fs: &vxFaultStorage{Storage: storage}, issuerCert: map[string]*x509.Certificate{},
 		bySerial: map[string]*c16Cert{}, lastNum: map[string]*big.Int{}, lastRaw: map[string][]byte{}, numberRisk: map[string]int{}, expiry: "72h",
 		absent: map[string]bool{}, deletedEver: map[string]bool{}, reimportedAt: map[string]int{}, fresh: map[string]bool{}, crlNewAt: map[string]int{}}
 	b, err := vxBackend(s.fs, time.Hour, 24*time.Hour)
@@ -174,6 +195,7 @@ func c16Setup(rt *rapid.T, rec *verifx.Recorder, nIssuers int, autoRebuild bool)
 		{"r", map[string]any{"allow_any_name": true, "enforce_hostnames": false, "key_type": "ec", "ttl": "1h"}},
 		{"ns", map[string]any{"allow_any_name": true, "enforce_hostnames": false, "key_type": "ec", "ttl": "1h", "no_store": true}},
 		{"short", map[string]any{"allow_any_name": true, "enforce_hostnames": false, "key_type": "ec", "ttl": "8s"}},
+		{"old", map[string]any{"allow_any_name": true, "enforce_hostnames": false, "key_type": "ec", "ttl": "1h", "not_before_duration": "3h"}},
 	} {
 		s.mustWrite("role "+r.name, "roles/"+r.name, r.data)
 	}
@@ -245,6 +267,9 @@ func (s *c16Sys) ocspStatus(c *c16Cert, post bool, hash crypto.Hash) (int, error
 	if err != nil {
 		return 0, fmt.Errorf("OCSP response: %w", err)
 	}
+	if parsed.Status == ocsp.Revoked && c.revoked && parsed.RevokedAt.Unix() != c.revTime {
+		return 0, fmt.Errorf("OCSP response: revoked at %d, the revoke call said %d", parsed.RevokedAt.Unix(), c.revTime)
+	}
 	return parsed.Status, nil
 }
 
@@ -262,6 +287,7 @@ func (s *c16Sys) present() []string {
 func (s *c16Sys) check() {
 	now := time.Now()
 	// ---- CRLs
+	s.noteFrozen()
 	for _, name := range s.present() {
 		crl, raw := s.fetchCRL("issuer/"+name+"/crl", "crl")
 		if crl == nil {
@@ -298,8 +324,11 @@ func (s *c16Sys) check() {
 				if s.numberRisk[name] > 0 {
 					sig = c16SigNumber
 					s.nNumberReuse++
+				} else if s.mixedCRLSigning(name) {
+					sig = c16SigMixedNumber
+					s.x.nMixedUsageHit++
 				}
-				s.violation(sig, "issuer %s: a different CRL is served with number %s, the previous one had %s (a rebuild was interrupted by an injected fault after a CRL was stored and before crls/config was: %v)", name, crl.Number, s.lastNum[name], s.numberRisk[name] > 0)
+				s.violation(sig, "issuer %s: a different CRL is served with number %s, the previous one had %s (a rebuild was interrupted by an injected fault after a CRL was stored and before crls/config was: %v; an equivalent issuer is present and exactly one of the two has crl-signing: %v)", name, crl.Number, s.lastNum[name], s.numberRisk[name] > 0, s.mixedCRLSigning(name))
 			}
 			if s.numberRisk[name] > 0 && s.step > s.numberRisk[name] {
 				s.numberRisk[name] = 0 // first CRL built by a later action: from here on the counters are persisted again
@@ -308,6 +337,7 @@ func (s *c16Sys) check() {
 		s.lastRaw[name], s.lastNum[name] = raw, crl.Number
 		if newBuild {
 			s.crlNewAt[name] = s.step
+			s.noteCompleteRebuild(name)
 		}
 		if crl.ThisUpdate.After(now.Add(2*time.Second)) || crl.NextUpdate.Before(now) {
 			s.violation("crl-validity-window", "issuer %s: thisUpdate %s / nextUpdate %s do not bracket now %s", name, crl.ThisUpdate, crl.NextUpdate, now)
@@ -319,53 +349,42 @@ func (s *c16Sys) check() {
 				s.violation("crl-duplicate-entry", "issuer %s: serial %x is listed twice", name, e.SerialNumber)
 			}
 			listed[key] = e.RevocationTime
-			c := s.bySerial[key]
-			switch {
-			case c == nil:
-				s.violation("unknown-serial-on-crl", "issuer %s: CRL lists serial %x which this history never issued", name, e.SerialNumber)
-			case c.issuer != name && (s.absent[c.issuer] || s.deletedEver[c.issuer] && s.crlNewAt[name] < s.reimportedAt[c.issuer]):
-				// documented: revoked certificates whose issuer is unknown to the mount are put on the default
-				// issuer's CRL; a CRL built while the issuer was missing may still be the one served
-				if !c.attempted {
-					s.violation("unrevoked-serial-on-crl", "serial %s (issuer %s, deleted) is on the CRL of %s although no revocation was ever requested", c.serial, c.issuer, name)
-				}
-			case c.issuer != name:
-				s.violation("serial-on-wrong-issuer-crl", "serial %s was issued by %s but is listed on the CRL of %s", c.serial, c.issuer, name)
-			case !c.attempted:
-				s.violation("unrevoked-serial-on-crl", "serial %s (issuer %s) is on the CRL although no revocation was ever requested", c.serial, name)
-			default:
-				if c.crlTime.IsZero() {
-					c.crlTime = e.RevocationTime
-				} else if !c.crlTime.Equal(e.RevocationTime) {
-					s.violation("revocation-time-changed", "serial %s: CRL revocation time changed from %s to %s", c.serial, c.crlTime, e.RevocationTime)
-				}
-				if c.revoked && e.RevocationTime.Unix() != c.revTime {
-					s.violation("revocation-time-mismatch", "serial %s: CRL says revoked at %d, the revoke call said %d", c.serial, e.RevocationTime.Unix(), c.revTime)
-				}
-			}
+			s.checkEntry("complete", name, e)
 		}
+		delta := s.checkDelta(name, crl, now)
 		if s.disabled {
 			continue
 		}
 		for _, c := range s.certs {
-			if c.issuer != name || !c.alive(now) {
+			if !s.covers(name, c.issuer) || !c.alive(now) {
 				continue
 			}
 			if newBuild && c.revoked {
 				c.must = true // a complete CRL built after the revocation was reported
 			}
+			_, inComplete := listed[c.cert.SerialNumber.String()]
 			if !c.must {
+				s.checkUnion(name, c, crl, inComplete, delta)
 				continue
 			}
-			if _, ok := listed[c.cert.SerialNumber.String()]; !ok {
+			c.seenUnion = c.seenUnion || inComplete
+			if inComplete {
+				c.lostToMixed = false
+			}
+			if !inComplete {
 				sig := "revoked-serial-missing-from-crl"
-				if c.faultAfterRecord {
+				if s.mixedCRLSigning(c.issuer) || c.lostToMixed {
+					sig = c16SigMixedUsage
+					c.lostToMixed = true
+					s.x.nMixedUsageHit++
+				} else if c.faultAfterRecord {
 					sig = c16SigF5
 					s.nF5++
 				} else if s.deletedEver[c.issuer] {
 					sig = "revoked-serial-missing-from-crl-after-issuer-reimport"
 				}
 				c.must = false // if the signature is a listed finding the search goes on; the obligation returns with the next rebuild
+				c.mustUnion, c.seenUnion = false, false
 				s.violation(sig, "serial %s (issuer %s) was reported revoked (auto_rebuild=%v) but the CRL served now for %s (number %s, %d entries) does not list it; fault-after-record=%v",
 					c.serial, c.issuer, s.autoRebuild, name, crl.Number, len(listed), c.faultAfterRecord)
 			}
@@ -394,13 +413,19 @@ func (s *c16Sys) check() {
 				if !c.attempted && rtime != 0 {
 					s.violation("status-revoked-without-revoke", "cert/%s shows revocation time %d although no revocation was requested", c.serial, rtime)
 				}
+				s.checkRFC(c, resp.Data)
+			}
+		} else if !c.attempted {
+			// never stored, never revoked: a refused revoke-by-certificate must not have imported it
+			if resp, err := s.read("cert/" + c.serial); err == nil && resp != nil {
+				s.violation("unstored-certificate-imported", "cert/%s returns an entry although the certificate was issued with no_store and no revocation of it was accepted", c.serial)
 			}
 		}
 		if !c.revoked && c.attempted {
 			continue // a failed revoke may or may not have taken effect
 		}
-		if s.absent[c.issuer] {
-			continue // no issuer in the mount can sign an OCSP response for this certificate
+		if s.absent[c.issuer] || !s.canSignOCSP(c.issuer) {
+			continue // no issuer in the mount can (or may: ocsp-signing usage) sign an OCSP response for this certificate
 		}
 		st, err := s.ocspStatus(c, (i+s.step)%2 == 0, []crypto.Hash{crypto.SHA1, crypto.SHA256}[(i+s.step/2)%2])
 		if err != nil {
@@ -410,10 +435,12 @@ func (s *c16Sys) check() {
 			s.violation("ocsp-error", "OCSP for %s: %v", c.serial, err)
 			continue
 		}
-		if c.revoked && st == ocsp.Unknown && s.deletedEver[c.issuer] {
-			// the issuer certificate is present again (new issuer id); the revocation entry still names the old id
+		if c.revoked && st == ocsp.Unknown && (s.deletedEver[c.issuer] || s.deletedEver[s.x.twin[c.issuer]]) {
+			// the issuer certificate is present again (new issuer id); the revocation entry still names the old id.
+			// Same with two issuers sharing key and subject: the entry names either of them, and the one it
+			// names may be the one that was deleted.
 			s.nOcspStale++
-			s.violation(c16SigOcspStale, "OCSP status of %s (issuer %s, deleted and re-imported) is unknown after a successful revoke although the issuer is present with its key (crl disabled=%v, auto_rebuild=%v)", c.serial, c.issuer, s.disabled, s.autoRebuild)
+			s.violation(c16SigOcspStale, "OCSP status of %s (issuer %s, it or its equivalent issuer was deleted) is unknown after a successful revoke although the issuer is present with its key (crl disabled=%v, auto_rebuild=%v)", c.serial, c.issuer, s.disabled, s.autoRebuild)
 			continue
 		}
 		if c.revoked && st != ocsp.Revoked {
@@ -428,7 +455,7 @@ func (s *c16Sys) check() {
 // ---- actions
 
 func (s *c16Sys) issue(role string) {
-	issuer := rapid.SampledFrom(s.present()).Draw(s.rt, "issuer")
+	issuer := rapid.SampledFrom(s.issuable()).Draw(s.rt, "issuer")
 	resp, err := s.write("issuer/"+issuer+"/issue/"+role, map[string]any{"common_name": fmt.Sprintf("c%d.example.com", len(s.certs))})
 	if err != nil {
 		s.rt.Fatalf("harness: issue: %v", err)
@@ -437,7 +464,8 @@ func (s *c16Sys) issue(role string) {
 	if err != nil {
 		s.rt.Fatalf("harness: %v", err)
 	}
-	cc := &c16Cert{serial: vxStr(resp.Data, "serial_number"), cert: c, issuer: issuer, noStore: role == "ns", stored: role != "ns", short: role == "short", issuedAt: s.step}
+	cc := &c16Cert{serial: vxStr(resp.Data, "serial_number"), cert: c, issuer: issuer, noStore: role == "ns", stored: role != "ns", short: role == "short", issuedAt: s.step,
+		keyPEM: vxStr(resp.Data, "private_key")}
 	s.certs = append(s.certs, cc)
 	s.bySerial[c.SerialNumber.String()] = cc
 	s.logf("issue %s by %s role=%s", cc.serial, issuer, role)
@@ -479,19 +507,32 @@ func (s *c16Sys) revokeCall(c *c16Cert, byCert bool) (ok bool, resp *logical.Res
 
 func (s *c16Sys) noteSuccess(c *c16Cert, resp *logical.Response, how string) {
 	rtime, _ := resp.Data["revocation_time"].(int64)
+	rfc := vxStr(resp.Data, "revocation_time_rfc3339")
 	if c.revoked && rtime != c.revTime {
 		s.violation("revoke-not-idempotent", "revoking %s again returned revocation_time %d, the first success returned %d", c.serial, rtime, c.revTime)
 	}
+	if c.revoked && rfc != c.revRFC {
+		s.violation("revoke-not-idempotent", "revoking %s again returned revocation_time_rfc3339 %s, the first success returned %s", c.serial, rfc, c.revRFC)
+	}
+	if t, err := time.Parse(time.RFC3339Nano, rfc); err != nil || t.Unix() != rtime {
+		s.violation("revoke-times-disagree", "revoke of %s returned revocation_time %d and revocation_time_rfc3339 %q (%v)", c.serial, rtime, rfc, err)
+	}
 	if !c.revoked {
-		c.revoked, c.revTime = true, rtime
+		c.revoked, c.revTime, c.revRFC = true, rtime, rfc
 		if s.absent[c.issuer] {
 			s.nRevokedWhileAbsent++
+		}
+		if s.x.delta && s.autoRebuild {
+			s.x.nRevokeUnderDelta++
+		}
+		if s.x.twin[c.issuer] != "" {
+			s.x.nTwinRevoked++
 		}
 	}
 	if how == "cert" {
 		c.stored = true
 	}
-	if !s.autoRebuild && !s.disabled {
+	if !s.autoRebuild && !s.disabled && s.canSignCRL(c.issuer) {
 		c.must = true // "With CRL auto-rebuild off, the CRL served once the revoke call has returned already lists the serial."
 	}
 }
@@ -532,7 +573,7 @@ func c16DrawFault(rt *rapid.T, targets []string, maxK int) c16Fault {
 	return f
 }
 
-var c16RevokeTargets = []string{"put crls/", "put revoked/", "put crls/config", "get revoked/", "list revoked/", "get config/crl", "get crls/config", "list delta-wal/", "get certs/", "put certs/", "get config/issuer/", "get config/key/", "get config/issuers"}
+var c16RevokeTargets = []string{"put crls/", "put revoked/", "put crls/config", "get revoked/", "list revoked/", "get config/crl", "get crls/config", "list delta-wal/", "get certs/", "put certs/", "get config/issuer/", "get config/key/", "get config/issuers", "put delta-wal/", "put delta-wal/last"}
 
 func (s *c16Sys) arm(f c16Fault) {
 	s.fs.mu.Lock()
@@ -635,6 +676,7 @@ func (s *c16Sys) noteInterruptedRebuild(ops []string) {
 		s.nInterruptedRebuild++
 		for _, n := range s.issuers {
 			s.numberRisk[n] = s.step
+			s.ext().deltaRisk[n] = s.step
 		}
 	}
 }
@@ -703,6 +745,8 @@ func (s *c16Sys) actTidy() {
 		state = vxStr(st.Data, "state")
 	}
 	s.nTidy++
+	bufd, _ := time.ParseDuration(buf)
+	s.noteTidy(true, bufd)
 	s.logf("tidy safety_buffer=%s assoc=%v cert_store=%v -> %s", buf, assoc, store, state)
 	if state == "Error" {
 		s.violation("tidy-error", "tidy ended in state Error: %v", st.Data["error"])
@@ -732,16 +776,25 @@ func (s *c16Sys) actDeleteIssuer() {
 	if len(pr) < 2 {
 		s.rt.Skip("would remove the last issuer")
 	}
-	x := rapid.SampledFrom(pr).Draw(s.rt, "issuerToDelete")
+	s.deleteIssuer(rapid.SampledFrom(pr).Draw(s.rt, "issuerToDelete"))
+}
+
+func (s *c16Sys) deleteIssuer(x string) {
 	_, err := vxReq(s.b, s.fs, logical.DeleteOperation, "issuer/"+x, nil)
 	if err != nil {
 		s.violation("issuer-delete-failed", "deleting issuer %s failed: %v", x, err)
 		return
 	}
+	s.afterDelete(x)
+}
+
+// afterDelete: bookkeeping after DELETE issuer/x succeeded.
+func (s *c16Sys) afterDelete(x string) {
 	s.absent[x], s.deletedEver[x] = true, true
 	delete(s.lastRaw, x)
 	delete(s.lastNum, x)
 	s.numberRisk[x] = 0
+	s.forgetDelta(x)
 	s.nIssuerDeleted++
 	nrev := 0
 	now := time.Now()
@@ -783,6 +836,11 @@ func (s *c16Sys) actReimportIssuer() {
 		s.violation("issuer-import-failed", "importing the certificate of %s again failed: %v", x, err)
 		return
 	}
+	s.afterImport(x, resp, makeDefault)
+}
+
+// afterImport: bookkeeping after issuers/import/bundle of the certificate of the deleted issuer x succeeded.
+func (s *c16Sys) afterImport(x string, resp *logical.Response, makeDefault bool) {
 	ids, _ := resp.Data["imported_issuers"].([]string)
 	if len(ids) != 1 {
 		s.rt.Fatalf("harness: re-import of %s: imported_issuers=%v existing=%v", x, resp.Data["imported_issuers"], resp.Data["existing_issuers"])
@@ -795,6 +853,7 @@ func (s *c16Sys) actReimportIssuer() {
 		s.rt.Fatalf("harness: re-imported issuer %s has no key (err=%v)", x, err)
 	}
 	s.absent[x], s.fresh[x], s.reimportedAt[x] = false, true, s.step
+	s.resetUsage(x) // a new issuer entry has every usage
 	s.nIssuerReimported++
 	now := time.Now()
 	n := 0
@@ -841,19 +900,22 @@ func (s *c16Sys) actConfig() {
 		s.violation("config-crl-failed", "config/crl %v failed: %v", data, err)
 		return
 	}
-	if v, ok := data["auto_rebuild"].(bool); ok {
-		s.autoRebuild = v
-	}
+	s.noteCRLConfig(data)
 	if v, ok := data["disable"].(bool); ok {
+		if s.disabled && !v {
+			s.dropFrozenObligations()
+		}
 		s.disabled = v
 	}
 }
 
 func (s *c16Sys) actPeriodic() {
 	err := s.b.periodicFunc(s.rt.Context(), &logical.Request{Storage: s.fs})
+	s.waitTidy() // auto-tidy, if configured and due
+	s.afterPeriodic()
 	s.logf("periodic tick -> err=%v", err)
 	if err != nil {
-		s.violation("periodic-failed", "periodic function failed without a fault: %v", err)
+		s.deltaFailure("periodic-failed", "periodic function failed without a fault: %v", err)
 	}
 }
 
@@ -868,6 +930,10 @@ func (s *c16Sys) classify() (class string, nontrivial bool) {
 	}
 	nontrivial = nRev >= 2 && len(revokedIssuers) >= 2 || s.nFaultAfterRecord > 0
 	class = fmt.Sprintf("issuers=%d", len(s.issuers))
+	if nt, tags := s.extNontrivial(); nt {
+		nontrivial = true
+		s.rec.Class("nontrivial-by:"+tags, 1)
+	}
 	return
 }
 
@@ -876,6 +942,15 @@ func c16Run(t *testing.T, rec *verifx.Recorder) {
 		nIss := rapid.SampledFrom([]int{2, 1, 3}).Draw(rt, "nIssuers")
 		s := c16Setup(rt, rec, nIss, rapid.IntRange(0, 4).Draw(rt, "autoRebuildAtStart") == 4)
 		defer s.close()
+		if vxChance(rt, "twinIssuer", 30) {
+			s.addTwin()
+		}
+		if vxChance(rt, "deltaAtStart", 30) {
+			data := map[string]any{"auto_rebuild": true, "enable_delta": true}
+			s.mustWrite("config/crl", "config/crl", data)
+			s.noteCRLConfig(data)
+			s.logf("config/crl %v", data)
+		}
 		// short-lived certificates and real waiting ("until it expires") only in a few cases: they cost seconds
 		slow := vxChance(rt, "slowCase", verifx.Scale(4, 10))
 		waits := 0
@@ -911,6 +986,7 @@ func c16Run(t *testing.T, rec *verifx.Recorder) {
 			if slow {
 				rec.Class("slow-cases", 1)
 			}
+			s.extClasses()
 		}()
 		step := func(f func()) func(*rapid.T) {
 			return func(*rapid.T) { s.step++; f() }
@@ -935,6 +1011,18 @@ func c16Run(t *testing.T, rec *verifx.Recorder) {
 			"d-delete-issuer":  step(s.actDeleteIssuer),
 			"d-reimport":       step(s.actReimportIssuer),
 			"d-reimport2":      step(s.actReimportIssuer),
+			"o-config-delta":   step(s.actConfigDelta),
+			"o-rotate-delta":   step(func() { s.actRotateDelta(false) }),
+			"o-rotate-delta-f": step(func() { s.actRotateDelta(true) }),
+			"o-periodic-delta": step(s.actPeriodicElapsed),
+			"p-revoke-key":     step(s.actRevokeWithKey),
+			"p-revoke-foreign": step(s.actRevokeForeign),
+			"p-revoke-orphan":  step(s.actRevokeOrphan),
+			"q-revoke-expired": step(s.actRevokeExpired),
+			"r-tidy-ext":       step(s.actTidyExt),
+			"r-auto-tidy":      step(s.actAutoTidy),
+			"s-issuer-usage":   step(s.actIssuerUsage),
+			"s-issuer-usage2":  step(s.actIssuerUsage),
 			"m-issue-short": step(func() {
 				if !slow {
 					rt.Skip("not a slow case")
@@ -981,7 +1069,7 @@ func c16Shape(h []string) []string {
 }
 
 func TestVerif_C16_History(t *testing.T) {
-	rec := verifx.NewRecorder("C16", "history", "rapid state machine over one mount with 1-3 EC issuers: issue (stored / no_store / short-lived), revoke by serial or certificate, revoke again, crl/rotate, tidy, default-issuer change, config/crl (auto_rebuild, disable, expiry, delta), periodic tick, restart on the same storage, and storage faults (one failing operation or crash-from-k + restart) inside revoke and crl/rotate followed by retries; after every action cert/<serial>, OCSP and every issuer's CRL are compared with the model; non-trivial = >= 2 revoked serials on >= 2 issuers, or a fault between the revocation record and the CRL write")
+	rec := verifx.NewRecorder("C16", "history", "rapid state machine over one mount with 1-3 EC issuers: issue (stored / no_store / short-lived), revoke by serial or certificate, revoke again, crl/rotate, tidy, default-issuer change, config/crl (auto_rebuild, disable, expiry, delta, grace period, delta interval), periodic tick (also with the delta interval / auto-tidy interval elapsed), restart on the same storage, storage faults (one failing operation or crash-from-k + restart) inside revoke, crl/rotate and crl/rotate-delta followed by retries, revoke-with-key (own / other key), revoke of foreign, orphaned and already expired certificates, an optional second issuer with the key and subject of i0, tidy variants and auto-tidy; after every action cert/<serial>, OCSP and every issuer's complete and delta CRL are compared with the model; non-trivial = >= 2 revoked serials on >= 2 issuers, or a fault between the revocation record and the CRL write, or a revocation carried by a delta CRL only, or a revoke-with-key, or a tidy while unexpired revoked certificates exist, or a revocation under twin issuers")
 	defer rec.Flush()
 	c16Run(t, rec)
 }
@@ -990,11 +1078,13 @@ func TestVerif_C16_History(t *testing.T) {
 // revoke call is failed once (fresh mount per k), the revoke is retried until it reports success, and the
 // same oracle is applied; then the same with a crash at k followed by a restart.
 func TestVerif_C16_FaultAllK(t *testing.T) {
-	rec := verifx.NewRecorder("C16", "fault-all-k", "generated scenario (1-3 issuers, 0-3 earlier revocations, auto_rebuild off/on, revoke by serial/certificate); for every k = 1..(number of storage operations of the revoke): fresh mount, fail operation k (or crash from k and restart), retry the revoke until success, full oracle; non-trivial = the fault fell between the revocation record and the end of the CRL rebuild")
+	rec := verifx.NewRecorder("C16", "fault-all-k", "generated scenario (1-3 issuers, 0-3 earlier revocations, auto_rebuild off/on, delta CRLs off/on, revoke by serial/certificate); for every k = 1..(number of storage operations of the revoke): fresh mount, fail operation k (or crash from k and restart), retry the revoke until success, full oracle; non-trivial = the fault fell between the revocation record and the end of the CRL rebuild")
 	defer rec.Flush()
 	rapid.Check(t, func(rt *rapid.T) {
 		nIss := rapid.SampledFrom([]int{2, 1, 3}).Draw(rt, "nIssuers")
 		auto := rapid.IntRange(0, 3).Draw(rt, "autoRebuild") == 3
+		delta := rapid.IntRange(0, 2).Draw(rt, "enableDelta") == 2
+		auto = auto || delta // delta CRLs require auto_rebuild
 		nPrev := rapid.IntRange(0, 3).Draw(rt, "earlierRevocations")
 		prevIss := make([]int, nPrev)
 		for i := range prevIss {
@@ -1005,7 +1095,7 @@ func TestVerif_C16_FaultAllK(t *testing.T) {
 		noStore := byCert && rapid.Bool().Draw(rt, "noStore")
 		crash := rapid.Bool().Draw(rt, "crash")
 		for k := 1; k <= 200; k++ {
-			fired := c16OneK(rt, rec, nIss, auto, prevIss, target, byCert, noStore, crash, k)
+			fired := c16OneK(rt, rec, nIss, auto, delta, prevIss, target, byCert, noStore, crash, k)
 			if !fired {
 				break
 			}
@@ -1013,9 +1103,15 @@ func TestVerif_C16_FaultAllK(t *testing.T) {
 	})
 }
 
-func c16OneK(rt *rapid.T, rec *verifx.Recorder, nIss int, auto bool, prevIss []int, target int, byCert, noStore, crash bool, k int) bool {
+func c16OneK(rt *rapid.T, rec *verifx.Recorder, nIss int, auto, delta bool, prevIss []int, target int, byCert, noStore, crash bool, k int) bool {
 	s := c16Setup(rt, rec, nIss, auto)
 	defer s.close()
+	if delta {
+		data := map[string]any{"auto_rebuild": true, "enable_delta": true}
+		s.mustWrite("config/crl", "config/crl", data)
+		s.noteCRLConfig(data)
+		s.logf("config/crl %v", data)
+	}
 	s.check()
 	issueBy := func(iss int, role string) *c16Cert {
 		resp := s.mustWrite("issue", fmt.Sprintf("issuer/i%d/issue/%s", iss, role), map[string]any{"common_name": fmt.Sprintf("c%d.example.com", len(s.certs))})
@@ -1082,6 +1178,12 @@ func c16OneK(rt *rapid.T, rec *verifx.Recorder, nIss int, auto bool, prevIss []i
 		s.noteSuccess(c, resp, how)
 	}
 	s.check()
+	if delta {
+		// a delta rebuild must carry whatever the complete CRL does not list yet
+		s.step++
+		s.actRotateDelta(false)
+		s.check()
+	}
 	// a later complete rebuild must list everything
 	s.step++
 	s.actRotate(false)
@@ -1093,8 +1195,11 @@ func c16OneK(rt *rapid.T, rec *verifx.Recorder, nIss int, auto bool, prevIss []i
 	if written {
 		cls = "fault-after-record"
 	}
-	rec.Case(cls, written, verifx.Digest(nIss, auto, len(prevIss), target, byCert, noStore, crash, k), func() any {
-		return map[string]any{"issuers": nIss, "auto_rebuild": auto, "earlier_revocations": len(prevIss), "by_certificate": byCert, "no_store": noStore, "crash": crash, "k": k, "failed_op": op, "ops_in_call": len(ops)}
+	if delta {
+		rec.Class("enable_delta", 1)
+	}
+	rec.Case(cls, written, verifx.Digest(nIss, auto, delta, len(prevIss), target, byCert, noStore, crash, k), func() any {
+		return map[string]any{"issuers": nIss, "auto_rebuild": auto, "enable_delta": delta, "earlier_revocations": len(prevIss), "by_certificate": byCert, "no_store": noStore, "crash": crash, "k": k, "failed_op": op, "ops_in_call": len(ops), "history": c16Shape(s.history)}
 	})
 	fo := strings.Fields(op)
 	if len(fo) >= 2 {
